@@ -403,11 +403,15 @@ pub struct BrokerCfg {
     pub tune: (u16, u32, u16),
     /// answer client frames automatically after the handshake
     pub auto_reply: bool,
+    /// answer Basic.Get with a one-byte message instead of Get-Empty
+    pub message_on_get: bool,
+    /// push one delivery right after each ConsumeOk
+    pub deliver_on_consume: bool,
 }
 
 impl Default for BrokerCfg {
     fn default() -> Self {
-        BrokerCfg { mechanisms: "PLAIN EXTERNAL".into(), locales: "en_US".into(), tune: (2047, 131072, 0), auto_reply: true }
+        BrokerCfg { mechanisms: "PLAIN EXTERNAL".into(), locales: "en_US".into(), tune: (2047, 131072, 0), auto_reply: true, message_on_get: false, deliver_on_consume: false }
     }
 }
 
@@ -478,9 +482,34 @@ impl Broker {
                             }
                             _ => None,
                         };
+                        let content = |ch: u16| -> Vec<AMQPFrame> {
+                            vec![
+                                AMQPFrame::Header(ch, 60, Box::new(amq_protocol::frame::AMQPContentHeader {
+                                    class_id: 60, weight: 0, body_size: 1, properties: basic::AMQPProperties::default(),
+                                })),
+                                AMQPFrame::Body(ch, vec![120]),
+                            ]
+                        };
                         if let Some(r) = reply {
                             l2.lock().unwrap().replies.push((*ch, r.clone()));
-                            p2.push_frames(&[r]);
+                            let mut out = vec![r.clone()];
+                            match (&r, m) {
+                                (_, AMQPClass::Basic(basic::AMQPMethod::Get(_))) if cfg.message_on_get => {
+                                    out = vec![AMQPFrame::Method(*ch, AMQPClass::Basic(basic::AMQPMethod::GetOk(basic::GetOk {
+                                        delivery_tag: 500 + seq as u64, redelivered: false, exchange: "".into(), routing_key: "rk".into(), message_count: 0,
+                                    })))];
+                                    out.extend(content(*ch));
+                                }
+                                (AMQPFrame::Method(_, AMQPClass::Basic(basic::AMQPMethod::ConsumeOk(ok))), _) if cfg.deliver_on_consume => {
+                                    out.push(AMQPFrame::Method(*ch, AMQPClass::Basic(basic::AMQPMethod::Deliver(basic::Deliver {
+                                        consumer_tag: ok.consumer_tag.clone(), delivery_tag: 700 + seq as u64, redelivered: false,
+                                        exchange: "".into(), routing_key: "rk".into(),
+                                    }))));
+                                    out.extend(content(*ch));
+                                }
+                                _ => {}
+                            }
+                            p2.push_frames(&out);
                         }
                     }
                 }
